@@ -68,7 +68,8 @@ def plan(tier, seed):
 def floors(tier):
     return {'evaluations': 20000, 'distinct_nontrivial': 3000, 'splits_checked': 50000, 'keyval_checked': 8000,
             'histkeys:sep': 6, 'hist:policy:first': 500, 'hist:policy:concatenate': 500, 'hist:policy:error': 500,
-            'hist:policy:last': 500, 'repeated_keys_seen': 1000,
+            'hist:policy:last': 500, 'repeated_keys_seen': 1000, 'keyval_second_call_on_same_list': 5000,
+            'keyval_default_values_used': 5000, 'keyval_callable_policy_calls': 1000, 'hist:keyval_default:list': 2000,
             'lists_with_none_entries': 2000, 'argument_info_checked': 4000,
             'double_group_same_delimiters': 200, 'double_group_other_delimiters': 200}
 
@@ -266,7 +267,8 @@ def model_keyval(s, nl, policy, extract):
         else:
             vitems = part[eq + 1:]
             if not vitems:
-                value = ''
+                # 'k=' : splitting at the equals sign (keep_empty off) yields the key alone, i.e. no value given
+                value = None
             else:
                 a = vitems[0][2] if vitems[0][0] == 'c' else vitems[0][1].pos
                 b = (vitems[-1][2] + 1) if vitems[-1][0] == 'c' else vitems[-1][1].pos_end
@@ -291,15 +293,64 @@ def model_keyval(s, nl, policy, extract):
     return result
 
 
-def check_keyval(s, nl, policy, extract, rec):
+_DEFAULTS = {}
+
+
+def default_value(kind):
+    """Value for keys given without '=': None, a single node, or a LatexNodeList (of a separately parsed 'D{v}')."""
+    if kind is None:
+        return None, ''
+    if 'nl' not in _DEFAULTS:
+        _DEFAULTS['nl'] = parse('D{v}', tolerant=False)
+    nl = _DEFAULTS['nl']
+    if kind == 'node':
+        return nl[0], 'D'
+    return nl, 'D{v}'
+
+
+def check_keyval(s, nl, policy, extract, rec, default=None, second_policy=None):
+    before = canon.canon(nl)
+    err = check_keyval_once(s, nl, policy, extract, rec, default)
+    if err:
+        return err
+    # the call must leave the list it was called on (and the caller's default value) as they were: the parsed tree is
+    # shared with every later consumer
+    if canon.canon(nl) != before:
+        return 'parse_keyval_content(%r) modified the node list it was called on: now %s' % (policy, canon.short(nl))
+    if default is not None:
+        dv, dtext = default_value(default)
+        got = dv.latex_verbatim()
+        if got != dtext or (default == 'list' and len(dv) != 2):
+            _DEFAULTS.clear()
+            return 'parse_keyval_content(%r) modified the default value object passed to it: now %r, was %r' % (
+                policy, got, dtext)
+    if second_policy is not None:
+        rec.monitor('keyval_second_call_on_same_list')
+        err = check_keyval_once(s, nl, second_policy, extract, rec, default)
+        if err:
+            return 'second call on the same node list (first call used policy %r): %s' % (policy, err)
+    return None
+
+
+def check_keyval_once(s, nl, policy, extract, rec, default=None):
     rec.monitor('keyval_checked')
     rec.hist('policy', policy)
-    want = model_keyval(s, nl, policy, extract)
+    rec.hist('keyval_default', str(default))
+    model_policy = {'callable-first': 'first', 'callable-last': 'last'}.get(policy, policy)
+    want = model_keyval(s, nl, model_policy, extract)
     if want is None:
         rec.monitor('keyval_outside_quantifier')
         return None
+    calls = []
+    action = policy
+    if policy.startswith('callable'):
+        def action(key, prev_value, new_value, result_keyvals=None):
+            calls.append((key, result_keyvals is not None and key in result_keyvals))
+            return result_keyvals[key] if policy == 'callable-first' else new_value
+    dv, dtext = default_value(default)
     try:
-        kv = nl.parse_keyval_content(repeated_key_aggregate_action=policy, extract_value_group_contents=extract)
+        kv = nl.parse_keyval_content(repeated_key_aggregate_action=action, extract_value_group_contents=extract,
+                                     default_value_nodelist=dv)
     except ValueError as e:
         if want == 'ERROR':
             rec.monitor('repeated_keys_seen')
@@ -311,20 +362,24 @@ def check_keyval(s, nl, policy, extract, rec):
         return "policy 'error' did not raise for a repeated key; result keys %r" % (list(kv.keys()),)
     if list(kv.keys()) != [k for k, _ in want]:
         return 'keys %r, expected %r' % (list(kv.keys()), [k for k, _ in want])
+    if policy.startswith('callable'):
+        rec.monitor('keyval_callable_policy_calls', len(calls))
+        if any(not seen for _, seen in calls):
+            return 'custom aggregation callable was called for a key not yet in result_keyvals: %r' % (calls,)
     for k, pieces in want:
-        if len(pieces) > 1 or policy != 'concatenate':
-            pass
         v = kv[k]
         if not isinstance(v, N.LatexNodeList):
             return 'value of key %r is %s, not a node list' % (k, type(v).__name__)
-        exp = ''.join(p or '' for p in pieces)
+        exp = ''.join(dtext if p is None else p for p in pieces)
         if len(pieces) > 1:
             rec.monitor('repeated_keys_seen')
+        if None in pieces and default is not None:
+            rec.monitor('keyval_default_values_used')
         got = v.latex_verbatim()
         if got != exp:
             return 'value of key %r is %r, expected %r (policy %s)' % (k, got, exp, policy)
         for n in live(v):
-            if n.isNodeType(N.LatexCharsNode) and n.chars != s[n.pos:n.pos_end]:
+            if n.isNodeType(N.LatexCharsNode) and n.latex_walker is nl.latex_walker and n.chars != s[n.pos:n.pos_end]:
                 return 'value of key %r: chars node %r claims span %d..%d holding %r' % (k, n.chars, n.pos, n.pos_end,
                                                                                         s[n.pos:n.pos_end])
     return None
@@ -437,7 +492,8 @@ def check_case(case, rec):
     elif what == 'split_node':
         err = check_split_at_node(s, nl, case['max_split'], case['keep_separators'], rec)
     else:
-        err = check_keyval(s, nl, case['policy'], case.get('extract', True), rec)
+        err = check_keyval(s, nl, case['policy'], case.get('extract', True), rec, case.get('default'),
+                           case.get('second_policy'))
     if err:
         rec.violation(case, '%s | source %r options %r' % (err, s, {k: v for k, v in case.items() if k != 's'}),
                       mech=what + ':' + err.split(':')[0][:40])
@@ -525,9 +581,11 @@ def run_shard(desc, rec):
                 s = ',' + s
             if i % 150 == 0:
                 rec.sample(s)
-            for policy in ('concatenate', 'first', 'last', 'error'):
+            for pi, policy in enumerate(('concatenate', 'first', 'last', 'error', 'callable-first', 'callable-last')):
                 rec.case()
-                case = {'s': s, 'what': 'keyval', 'policy': policy, 'extract': bool((i + len(policy)) % 2)}
+                case = {'s': s, 'what': 'keyval', 'policy': policy, 'extract': bool((i + len(policy)) % 2),
+                        'default': (None, 'node', 'list')[(i + pi) % 3],
+                        'second_policy': (None, 'first', 'concatenate', 'last')[(i // 3 + pi) % 4]}
                 if len(set(keys)) < len(keys):
                     rec.nontrivial((s, policy))
                 check_case(case, rec)
